@@ -665,8 +665,28 @@ fn compare_int_float(i: i64, f: f64) -> Ordering {
     if f.is_nan() {
         return Ordering::Less;
     }
-    let i_as_f = i as f64;
-    i_as_f.partial_cmp(&f).unwrap_or(Ordering::Equal)
+    // `i as f64` rounds above 2^53, so compare exactly: 2^63 and -2^63 are representable,
+    // and between them the integral part of `f` converts to an i64 without loss.
+    if f >= 9_223_372_036_854_775_808.0 {
+        return Ordering::Less;
+    }
+    if f < -9_223_372_036_854_775_808.0 {
+        return Ordering::Greater;
+    }
+    let integral = f.trunc();
+    match i.cmp(&(integral as i64)) {
+        Ordering::Equal => {
+            let fraction = f - integral;
+            if fraction > 0.0 {
+                Ordering::Less
+            } else if fraction < 0.0 {
+                Ordering::Greater
+            } else {
+                Ordering::Equal
+            }
+        }
+        other => other,
+    }
 }
 
 fn compare_float_int(f: f64, i: i64) -> Ordering {
